@@ -21,8 +21,8 @@ func zzC08_order() {
 	overlap := false
 	h := HandlerFunc(func(c Conn, m *Message) {
 		ci := -1
-		for i := range conns {
-			if conns[i] == c {
+		for i := range trans {
+			if trans[i] != nil && trans[i].name == c.RemoteAddr().String() {
 				ci = i
 			}
 		}
@@ -58,12 +58,28 @@ func zzC08_order() {
 		mux.Handle("ALL", h)
 		top = mux
 	}
+	// the connections are made one by one with NewConn (each gets a Server of its own, as Dial does), or
+	// accepted by one Server.Serve from an in-memory listener (they share the Server)
+	viaServe := nconn > 1 && zzFlag("viaServe")
+	var lst *zzListener
+	if viaServe {
+		lst = &zzListener{ch: make(chan zzAccept, 8)}
+		srv := &Server{Handler: top, Dict: d}
+		go srv.Serve(lst)
+	}
 	for i := 0; i < nconn; i++ {
 		release[i] = make(chan struct{}, 8)
-		trans[i] = zzNewTransport("198.51.100.1:1000")
+		trans[i] = zzNewTransport([3]string{"198.51.100.1:1000", "198.51.100.2:1000", "198.51.100.3:1000"}[i%3])
+		if viaServe {
+			lst.ch <- zzAccept{c: trans[i]}
+			continue
+		}
 		c, err := NewConn(trans[i], "zz", top, d)
 		vAssume(err == nil)
 		conns[i] = c
+	}
+	if viaServe {
+		vQuiesce()
 	}
 	// arrival pattern per connection: all messages in one segment / one segment per message /
 	// the first message byte by byte (header split at every offset would be 19 more cases: the
@@ -106,7 +122,7 @@ func zzC08_order() {
 	// all connections receive at once, or (staggered) the first connection's handler is already blocked
 	// and the application has meanwhile fetched the mux's error-report channel (as an error-consuming
 	// loop does on every iteration) when the other connections' messages arrive
-	if nconn > 1 && zzFlag("staggered") {
+	if nconn > 1 && !viaServe && zzFlag("staggered") {
 		feeds[0]()
 		vQuiesce()
 		if mux != nil {
